@@ -2,6 +2,7 @@
 import io
 import os
 import contextlib
+import unicodedata
 
 import core
 
@@ -10,6 +11,25 @@ NAMES = ["a", "a.txt", "a-b", "A", "b", "ab", "a b", "é", "z", "0", "_x", "a.d"
          "we\\ird.bin", "x:y", "q's",      # a backslash is an ordinary character in a POSIX file name
          "wait....bin", "..hidden", "a..", "x..y"]      # two or more consecutive dots INSIDE a name: ordinary names, not ".."
 DIRS = ["a", "d", "a.d", "sub dir", "Z", "é", "a-b", "0", "b\\s", "disc..2", "..d", "a.."]
+
+# ------------------------------------------------------------------------------ names: TEXT versus BYTES (round 7)
+# A file name is a byte string; the creators must list it byte for byte as it is on disk and sort siblings as raw strings
+# (code-point order = UTF-8 byte order).  Every literal below is written with escapes so that no editor can normalise it.
+#  * DECOMPOSED (NFD) Unicode names: valid UTF-8, not in NFC form.  NFD_SIBLINGS pairs a decomposed name with a plain sibling
+#    that sorts AFTER the decomposed spelling and BEFORE the composed one (A + U+030A < B < U+00C5): code that normalises
+#    names (before or after sorting, for keys or for paths) loses the file or the order;
+#  * names with the glob metacharacters * ? [ ] (ordinary characters of a POSIX file name): code that builds a pattern from a
+#    path without escaping it finds nothing below 'Album [FLAC]' and finds 'aXb' twice next to 'a*b';
+#  * mixed-case siblings whose raw order differs from the case-folded one ('README.txt' < 'data.bin' raw, after it folded).
+NFD_NAMES = ["cafe\u0301.bin", "re\u0301sume\u0301", "e\u0301", "A\u030a.txt", "u\u0308ber.dat", "\u1112\u1161\u11ab"]
+NFD_DIRS = ["A\u030a", "re\u0301sume\u0301", "cafe\u0301"]
+NFD_SIBLINGS = [("A\u030a", "B"), ("e\u0301", "f"), ("cafe\u0301", "cafz"), ("o\u0308.d", "p.d"), ("A\u030a", "a")]
+GLOB_NAMES = ["a*b", "what?", "cd[1]", "[x]", "track [01].flac", "x[!a]", "*", "?"]
+GLOB_DIRS = ["Album [FLAC]", "cd[1]", "a*b", "what?", "[a-z]"]
+CASE_SIBLINGS = [("README.txt", "data.bin"), ("Makefile", "main.c"), ("Zebra", "apple"), ("B.bin", "a.bin")]
+NAMES += NFD_NAMES[:5] + GLOB_NAMES[:6] + ["README.txt", "data.bin"]
+DIRS += NFD_DIRS + GLOB_DIRS[:4] + ["B", "README"]
+NAME_GROUPS = ("nfd", "glob", "case")
 
 
 LONG_DIRS = ["season-" + "x" * 80, "d" * 100, "é" * 60, "A long directory name, " * 4 + "end"]
@@ -21,8 +41,10 @@ def boundary_sizes(pl):
     return sorted(x for x in s if x >= 0)
 
 
-def gen_tree(rng, pl, max_files=7, single_prob=0.15, empty_prob=0.18, max_total=12):
-    """returns (tree: dict relpath(tuple) -> bytes, classes: set of str).  relpath () = single file."""
+def gen_tree(rng, pl, max_files=7, single_prob=0.15, empty_prob=0.18, max_total=12, name_groups=None, names_prob=0.4):
+    """returns (tree: dict relpath(tuple) -> bytes, classes: set of str).  relpath () = single file.
+       name_groups: the aimed name groups (NAME_GROUPS, see add_aimed_names) a directory gets on top of its random names;
+       None = with probability names_prob a random non-empty subset of them"""
     classes = set()
     sizes_pool = boundary_sizes(pl)
 
@@ -88,11 +110,104 @@ def gen_tree(rng, pl, max_files=7, single_prob=0.15, empty_prob=0.18, max_total=
         if not any(k[0] == "n0" for k in tree):
             tree[comps] = rng.randbytes(rng.choice([1, B + 1]))
             classes.add("forty nested directories")
+    if name_groups is None and rng.random() < names_prob:
+        name_groups = [g for g in NAME_GROUPS if rng.random() < 0.6] or [rng.choice(NAME_GROUPS)]
+    if name_groups:
+        add_aimed_names(rng, tree, pl, name_groups, budget=max(budget, 0))
     if any(len(k) > 1 for k in tree):
         classes.add("nested")
     else:
         classes.add("flat")
+    classes |= classify_names(tree)
     return tree, classes
+
+
+def _free(tree, comps):
+    """may a file be added at comps: no entry there, none above it that is a file, none below it"""
+    return comps not in tree and not any(comps[:i] in tree for i in range(1, len(comps))) and \
+        not any(k[:len(comps)] == comps for k in tree)
+
+
+def add_aimed_names(rng, tree, pl, groups=NAME_GROUPS, budget=None):
+    """adds the aimed name groups to a directory tree IN PLACE (small files; one of them may be longer than a piece when the
+       budget allows); returns the tree.  A group goes to the top level or into a directory the tree already has.
+       nfd:  a decomposed name next to a sibling that sorts between its decomposed and its composed spelling -- both files, or
+             the decomposed one a directory holding a file with a decomposed name -- and one more decomposed file name;
+       glob: a directory named with [ ] holding a directory named with [ ] holding a file, a file named with * or ? next to a
+             plain file that the name, read as a pattern, would match as well;
+       case: two siblings whose raw order differs from the case-folded order"""
+    if list(tree) == [()]:
+        return tree
+    left = [budget if budget is not None else 4 * pl]
+
+    def data(big=False):
+        n = rng.choice([0, 1, 7, 100]) if not big or left[0] <= pl + 1 else pl + 1
+        left[0] -= n
+        return rng.randbytes(n)
+
+    def put(comps, big=False):
+        if _free(tree, comps):
+            tree[comps] = data(big)
+            return True
+        return False
+    dirs = sorted({k[:j] for k in tree for j in range(1, len(k))})
+    for g in groups:
+        base = rng.choice(dirs) if dirs and rng.random() < 0.35 else ()
+        if g == "nfd":
+            a, b = rng.choice(NFD_SIBLINGS)
+            if rng.random() < 0.5:
+                put(base + (a, rng.choice(NFD_NAMES)), big=True)       # the decomposed name is a directory
+                put(base + (a, rng.choice(["x", "0", "z.bin"])))
+            else:
+                put(base + (a,), big=True)
+            if rng.random() < 0.5:
+                put(base + (b,))
+            else:
+                put(base + (b, rng.choice(["inner", "e\u0301"])))
+            put(base + (rng.choice(NFD_NAMES),))
+        elif g == "glob":
+            d1, d2 = rng.choice(GLOB_DIRS), rng.choice(GLOB_DIRS)
+            put(base + (d1, d2, rng.choice(["01 - track.flac", "x", "[x]"])), big=True)
+            put(base + (d1, rng.choice(["cover.jpg", "what?"])))
+            star = rng.choice(["a*b", "what?", "x[!a]", "*"])
+            if put(base + (star,)):
+                put(base + ({"a*b": "aXb", "what?": "whatX", "x[!a]": "xb", "*": "anything"}[star],))
+        elif g == "case":
+            a, b = rng.choice(CASE_SIBLINGS)
+            put(base + (a,))
+            put(base + (b,), big=True)
+    return tree
+
+
+NAME_CLASSES = ["name: decomposed (NFD) form", "name: sibling order changes under Unicode normalisation",
+                "name: glob metacharacter in a file name", "name: glob metacharacter in a directory name",
+                "name: sibling order changes under case folding"]
+
+
+def classify_names(tree):
+    """boundary classes of the NAMES of a tree ({components: anything}); () = single file: none"""
+    cl = set()
+    if list(tree) == [()]:
+        return cl
+    dirs, files = {}, set()
+    for k in tree:
+        for j in range(len(k)):
+            dirs.setdefault(k[:j], set()).add(k[j])
+        files.add(k)
+    for parent, names in dirs.items():
+        for n in names:
+            is_dir = parent + (n,) not in files
+            if unicodedata.normalize("NFC", n) != n:
+                cl.add("name: decomposed (NFD) form")
+            if any(c in n for c in "*?["):
+                cl.add("name: glob metacharacter in a directory name" if is_dir else "name: glob metacharacter in a file name")
+        raw = sorted(names)
+        for form in ("NFC", "NFD"):
+            if [unicodedata.normalize(form, n) for n in raw] != sorted(unicodedata.normalize(form, n) for n in raw):
+                cl.add("name: sibling order changes under Unicode normalisation")
+        if [n.casefold() for n in raw] != sorted(n.casefold() for n in raw):
+            cl.add("name: sibling order changes under case folding")
+    return cl
 
 
 def classify_v1(tree, pl, order=None):
@@ -256,6 +371,26 @@ def add_links(rng, tree, shapes=LINK_SHAPES):
         if is_link(new[t]):
             classes.add("file symlink to a symlink")
     return new, classes
+
+
+# names of the payload itself (the last component of the content path: the creators record it as info.name and build every
+# path below it): plain, with glob metacharacters, decomposed Unicode, mixed case -- in turn, a function of the case number
+ROOT_NAMES = ["payload", "Album [FLAC]", "payload", "cafe\u0301 (re\u0301sume\u0301)", "payload", "pay*load?", "PayLoad.D"]
+ROOT_CLASSES = ["payload path has a glob metacharacter", "payload path has a decomposed (NFD) name"]
+
+
+def root_name(i, single):
+    n = ROOT_NAMES[i % len(ROOT_NAMES)]
+    return n + ".bin" if single else n
+
+
+def root_name_classes(name):
+    cl = set()
+    if any(c in name for c in "*?["):
+        cl.add(ROOT_CLASSES[0])
+    if unicodedata.normalize("NFC", name) != name:
+        cl.add(ROOT_CLASSES[1])
+    return cl
 
 
 def write_tree(root, tree):
